@@ -164,12 +164,11 @@ theorem c12_parse_placed (fs0' : FileSet) (h' : fs0'.WF) (f : File) (cfg : Cfg) 
   rw [hfs.1, hfile]
 
 /-- the facts the model takes from the source (regenerated on every run) -/
+/- (the text of Remaining, IsEOF and of SkipWhitespaces' line-break test, formerly pinned here, is subsumed by the translation tie
+   Props/C10P.lean, built and audited by this property's check) -/
 theorem c12_facts :
-    Facts.fileSetFirstPos = 1 ∧ Facts.fileSetGap = 1 ∧ Facts.newFileOffset = 1 ∧
-    Facts.readerRemaining = "return r.file.len-(int(pos)-r.file.offset)" ∧
-    Facts.readerIsEOF = "return int(pos)-r.file.offset>=r.file.len" ∧
-    Facts.wsNlCond = "(r.file.data[cur]=='\\n'||r.file.data[cur]=='\\f')&&nlPos==0" :=
-  ⟨rfl, rfl, rfl, rfl, rfl, rfl⟩
+    Facts.fileSetFirstPos = 1 ∧ Facts.fileSetGap = 1 ∧ Facts.newFileOffset = 1 :=
+  ⟨rfl, rfl, rfl⟩
 
 /-! ### non-vacuity -/
 
